@@ -1301,7 +1301,8 @@ var _ = strconv.Itoa
 
 // ---- every server object NewServer creates for one listener ----
 
-const c17SigQuicIdle = "servers:quic:idle-timeout-not-carried"
+// (F-C17-7, repaired by /repo a99152d: the class "servers:quic:idle-timeout-not-carried" is no longer special — an
+// HTTP/3 server without the sites' idle timeout is judged like any other case of its listener class)
 
 // c17H3Of reads the HTTP/3 server NewServer may have attached to the listener (unexported field quicServer):
 // its MaxHeaderBytes and the MaxIdleTimeout of its QUICConfig (0 when there is no QUICConfig).
@@ -1433,17 +1434,13 @@ func c17RunServers(in *c17In) Result {
 	if present {
 		oh3 = fmt.Sprintf("(Some (%s, %s))", cZ(h3hdr), cZ(h3idle))
 		obs["http3_max_header_bytes"], obs["http3_max_idle_timeout"] = h3hdr, time.Duration(h3idle).String()
-		// F-C17-7: everything else as it should be, only the idle timeout the sites configure is not given to the HTTP/3 server
-		if idlePos && h3idle == 0 && h3hdr == int64(got.MaxHeaderBytes) {
-			sig = c17SigQuicIdle
-		}
 	}
 	// (a started plain-HTTP server may have been given an empty tls.Config by net/http's HTTP/2 setup in Serve)
 	if !in.Live && in.TLS != tlsOn {
 		return fail(fmt.Sprintf("TLS sites %v but the listener's TLSConfig present = %v", in.TLS, tlsOn))
 	}
 	return Result{Term: cApp("CServers", c17ServerTerm(dsrv.Server), cList(sites), cBool(in.TLS), cBool(!in.H2Off), cBool(in.QUIC), c17ServerTerm(got), oh3),
-		Obs: obs, Sig: sig, Class: fmt.Sprintf("servers:%s:tls=%v:h2=%v:quic-flag=%v:http3=%v:header-limit-set=%v", path, in.TLS, !in.H2Off, in.QUIC, present, hdrSet),
+		Obs: obs, Sig: sig, Class: fmt.Sprintf("servers:%s:tls=%v:h2=%v:quic-flag=%v:http3=%v:header-limit-set=%v:idle-positive=%v", path, in.TLS, !in.H2Off, in.QUIC, present, hdrSet, idlePos),
 		Nontrivial: present || len(in.Sites) >= 2}
 }
 
